@@ -18,6 +18,7 @@ import CnfgenModel.Heap.Store
 import CnfgenModel.Trans.Shuffle
 namespace Cnfgen
 namespace Heap
+local notation "Addr" => Nat
 
 /-- what `BaseCNF.__init__` writes into a new header after `description`: generator, copyright, url
 (their values come from `cnfgen.info`; the harness passes them) -/
